@@ -4,7 +4,8 @@ import SpecterModel.C38.Model
 `rt <type> <bound|-> <payload> <trail> => wrote=<hex> res=<ok|err:kind> passed=<hex|none> rest=<hex> same=<true|false|na>`
   real `Send` of a message whose canonical encoding is `payload`, then `trail` appended, then
   `Receive`/`BoundedReceive` into a fresh message through a spy decoder (`passed` = bytes handed to UnmarshalVT).
-`recv <bound|-> <stream> => res=… passed=… rest=…` : raw (truncated / malformed) stream. -/
+`recv <bound|-> <stream> => res=… passed=… rest=…` : raw (malformed) stream.
+`trunc <bound|-> <payload> <k> => …` : the first k bytes of the real frame of `payload`. -/
 namespace Specter.C38
 open Specter.Util
 
@@ -82,6 +83,20 @@ def step (_ : Unit) (toks : List String) (rhs : String) : Unit × Verdict :=
         | some d => ((), .diff d)
         | none => ((), .ok)
     | _, _ => ((), .bad "recv args")
+  | ["trunc", bound, payload, k] =>
+    -- the first k bytes of the real frame of `payload`
+    match parseBound bound, hexToBytes payload, k.toNat? with
+    | some bound, some payload, some k =>
+      let fits := match bound with | none => true | some m => decide (payload.length ≤ m)
+      -- statement oracle: a proper prefix of a frame never yields a message
+      let inScope : Bool := decide (k < 4 + payload.length) && (decide (k < 4) || fits)
+      let gotMsg : Bool := field "res" kvs == some "ok" || field "passed" kvs != some "none"
+      if inScope && gotMsg then
+        ((), .spec "message from a truncated frame")
+      else match cmpRecv bound ((send payload).take k) kvs with
+        | some d => ((), .diff d)
+        | none => ((), .ok)
+    | _, _, _ => ((), .bad "trunc args")
   | _ => ((), .bad "unknown op")
 
 def main : IO Unit := runLoop () step
